@@ -70,6 +70,24 @@ impl SecondaryTransaction {
     ) -> StorageResult<Self> {
         // pin a snapshot at version manager
         let pin_version = table.version.pin();
+        // after the pin, before (for update txns) awaiting the table lock
+        #[cfg(risinglight_verif)]
+        crate::verif::point(
+            "txn.pinned",
+            &format!(
+                "{},{},{}",
+                if update {
+                    "upd"
+                } else if read_only {
+                    "ro"
+                } else {
+                    "rw"
+                },
+                table.table_id(),
+                pin_version.epoch
+            ),
+        )
+        .await;
         Ok(Self {
             finished: false,
             mem: None,
@@ -210,6 +228,10 @@ impl SecondaryTransaction {
 
         // Commit changeset
         self.version.commit_changes(changeset).await?;
+
+        // phase B done and the manifest lock released; table lock and pin still held
+        #[cfg(risinglight_verif)]
+        crate::verif::point("vm.committed", "txn").await;
 
         self.finished = true;
 
